@@ -118,7 +118,7 @@ claim('C12', 'other',
 claim('C13', 'model_checking',
       'CBMC 6.11 (C++ front end) on the VERBATIM src/masa_map.cpp with a bounded std::string stub: for every string of length <= 6 (8 thorough) over all non-NUL byte values masa_map(s) equals the reference filter(lowercase(s), c not in {-,blank}); --unwinding-assertions; WITNESS twin must fail. '
       'Engine A: masa_init(H, NAME) with NAME symbolic resolves to the first catalogue entry equal to normalise(NAME), no match is fatal with the registry untouched (nothing registered under H), the handle key is used verbatim. '
-      'masa_map.cpp is analysed by CBMC only; inside Engine A masa_map is replaced by its contract.',
+      'masa_map.cpp is analysed by CBMC only; inside Engine A masa_map is replaced by its contract. The assumption behind the length bound is checked: every integer constant above the bound in the clang IR of the unit is taken as a possible length threshold and the real library is run on valid names decorated to the lengths around it and to 80 characters; thorough: CBMC also on two concrete long inputs.',
       'Bounded: strings longer than the bound are outside the claim. Trusted: CBMC C++ front end with -DSWIG, the stub headers in /verif/cbmc/stub (bounded std::string with the common member functions, <algorithm>, <cctype> of the C locale), unnamed namespaces of the unit given names textually before CBMC reads it (lookup-preserving); Engine A contract models.', 'CBMC bounded model checking of the real translation unit + symbolic execution of masa_init', 'DESIGN.md §4 C13')
 claim('C16', 'other',
       'In the default (exit) build and in a -DMASA_EXCEPTIONS -fexceptions build of the IR: every solution-dependent API template (130 per scalar type) called with symbolic arguments before any masa_init of its scalar type (both registries empty, and only the other registry initialised), masa_select_mms of an unknown (symbolic) handle and masa_init of an unknown (symbolic) solution name from a K=2 symbolic registry: '
